@@ -126,7 +126,7 @@ theorem C07_consumers :
         (store_enum_specifier_val (BitVec.ofInt 64 v)).toInt = v ∧
         (store_array_dimensions_array_of_len (BitVec.ofInt 64 v)).toInt = v ∧
         (store_struct_members_mem_bit_width (BitVec.ofInt 64 v)).toInt = v ∧
-        (store_declspec_attr_align (BitVec.ofInt 64 v)).toInt = v ∧
+        (store_declspec_align (BitVec.ofInt 64 v)).toInt = v ∧
         (store_attribute_list_ty_align (BitVec.ofInt 64 v)).toInt = v ∧
         (store_array_designator_begin (BitVec.ofInt 64 v)).toInt = v ∧
         (store_array_designator_end (BitVec.ofInt 64 v)).toInt = v ∧
